@@ -54,6 +54,17 @@ def impl_accepts(sel):
         return sel(c, pa) == sel(c, pm)
     cmp.obs = lambda c, a: sel(c, trip(a)) if (a.split(' ## ')[-1] if c.startswith('H ') else a.split(' ## ')[0]).startswith('O ') else None
     return cmp
+def on_same_value(sel):
+    """compare factory for properties about a function applied to a PURL value (format: C03; into_builder().build(): C10): the function's result
+    sel(parts of the triple) is compared only where model and crate hold the SAME value (the six components agree).  Where they hold different values the
+    difference is C01/C02/C09's to report, the theorem about the function still applies to the crate's value, and the executable oracle decides the case."""
+    def cmp(c, a, m):
+        pa = trip(a); pm = trip(m)
+        if not pa[0].startswith('O '): return 'skip'
+        if not pm[0].startswith('O ') or vals(pa[0]) != vals(pm[0]): return 'mismatch'
+        return sel(c, pa) == sel(c, pm)
+    cmp.obs = lambda c, a: sel(c, trip(a)) if a.split(' ## ')[0].startswith('O ') else None
+    return cmp
 def from_project(proj):
     def cmp(c, a, m):
         oa = proj(c, a, True)
@@ -142,9 +153,9 @@ PROPS['C03'] = dict(
     accepts=lambda c: c[0] in 'PSB',
     gen=lambda tier, rng: chain(gens.gen_byte(pairs=True, kinds=('g',)), gens.gen_byte(pairs=False, kinds=('t', 's', 'b')), gens.gen_types(),
                                 gens.gen_build(rng, Q(tier, 20000, 300000), 1, ('g', 't', 's', 'b', 'o')), gens.gen_spell(rng, Q(tier, 20000, 200000), ('g', 't', 's'))),
-    compare=impl_accepts(c03_sel), exhaustive=False,
+    compare=on_same_value(lambda c, p: canon(p[0])), exhaustive=False,
     rule='exhaustive: every ASCII byte and every ASCII pair (plus 2-, 3-, 4-byte scalars) in each of the 5 component positions through the builder; '
-         'random builder sequences and parsed spellings; accessors and canonical string compared, and an independent renderer of the documented shape in the oracle',
+         'random builder sequences and parsed spellings; the canonical string compared wherever model and crate hold the same component values, and an independent renderer of the documented shape in the oracle on every value',
 )
 # ------------------------------------------------------------------ C04
 def c04_sel(c, p):
@@ -285,8 +296,8 @@ PROPS['C10'] = dict(
     accepts=lambda c: c[0] in 'PSB',
     gen=lambda tier, rng: chain(parse_stream(tier, rng, ('g', 't', 's'), {'head': 3, 'path': 3, 'qual': 3, 'sub': 3, 'typed': 3}, TOK_T, (15000, 200000), (2000, 30000)),
                                 gens.gen_build(rng, Q(tier, 30000, 400000), 1, ('g', 't', 's', 'b', 'o')), gens.gen_names(rng, 'quick')),
-    compare=impl_accepts(lambda c, p: (vals(p[0]), vals(p[2]), canon(p[0]) == canon(p[2]))),
-    rule='every PURL produced by the parser and builder streams, for String, SmallString, Cow borrowed/owned and PackageType: value and result of into_builder().build() compared',
+    compare=on_same_value(lambda c, p: (vals(p[2]), canon(p[0]) == canon(p[2]))),
+    rule='every PURL produced by the parser and builder streams, for String, SmallString, Cow borrowed/owned and PackageType: the result of into_builder().build() compared wherever model and crate hold the same value; idempotence itself checked by the oracle on every value',
 )
 # ------------------------------------------------------------------ C11
 PROPS['C11'] = dict(
@@ -488,10 +499,18 @@ PROPS['C18'] = dict(
          'typed PURLs parsed from strings (with version, qualifiers, subpath): combined_name() and its re-split compared on the same parsed value',
 )
 # ------------------------------------------------------------------ C19
+def c19_compare(c, a, m):
+    # the verdict (==, cmp) is compared only where model and crate speak about the same two values (same canonical strings);
+    # a difference in the values themselves is C01/C02/C09's observable, and the oracle (== iff same string, etc.) runs on every case regardless
+    fa, fm = a.split(' | '), m.split(' | ')
+    if len(fa) != 3 or len(fm) != 3: return a == m
+    if fa[1:] != fm[1:]: return 'mismatch'
+    return fa[0] == fm[0]
+c19_compare.obs = lambda c, a: a.split(' | ')[0]
 PROPS['C19'] = dict(
     accepts=lambda c: c[0] == 'K',
     gen=lambda tier, rng: gens.gen_pair(rng, Q(tier, 40000, 500000)),
-    project=whole,
+    compare=c19_compare,
     rule='pairs of PURLs biased to near-collisions (two spellings of one tuple, one character changed, a separator moved between neighbouring fields, values with & and =, '
          'parser vs builder) for String, SmallString, Cow and PackageType: ==, cmp compared with the model, and ==/hash/cmp/partial_cmp against canonical-string equality in the oracle',
 )
